@@ -20,7 +20,7 @@ THEOREMS = ['Fsic.C15.' + n for n in [
 RULE = ('two streams. (a) symbol LISTS that no single parse_model() call returns: permutations, concatenations of two '
         'models (with and without shared names), verbatim symbols before/between equations, repeated symbols, a verbatim '
         'block rescaling a variable that a later equation reads (order observable in the results, checked against running '
-        'each symbol\'s code in list order). Every build is also solved on spans of length LAGS+LEADS+{0,1,2} with default and explicit start/end and compared with the hand-computable expectation (positions, statuses, values of one in-order pass; full trivial solve for models without endogenous variables). (b) grammar programs (gen_scripts.gen_program with verbatim fragments and named periods) extended with fenced '
+        'each symbol\'s code in list order). Every build is also solved on spans of length LAGS+LEADS+{0,1,2} with default and explicit start/end and compared with the hand-computable expectation (positions, statuses, values of one in-order pass; full trivial solve for models without endogenous variables), and rebuilt with the lags/leads/min_* settings given as NumPy integer scalars (int64, int32, intp, uint8, int16, array element, array max; bool and float left out because HEAD itself writes them verbatim): byte-identical text, executable in the plain-int namespace, LAGS/LEADS plain ints, all three routes. (b) grammar programs (gen_scripts.gen_program with verbatim fragments and named periods) extended with fenced '
         'verbatim blocks (incl. blank lines and nested indentation), plus the empty script, verbatim-only scripts and '
         'symbol lists with the equation of one endogenous symbol removed; crossed with with_type_hints in {True,False} x '
         'lag/lead settings (default + rows of the C03 Latin design) x converter in {default, identity-on-code, wrapping '
@@ -308,6 +308,63 @@ def boundary_oracle(rep, info, Model, symbols, kw, str_labels, names_data, has_e
                             f'{ret} / status {status!r}, expected positions {want} all solved', binfo)
 
 
+INT_FORMS = {
+    'np.int64': lambda v: np.int64(v), 'np.int32': lambda v: np.int32(v), 'np.intp': lambda v: np.intp(v),
+    'np.uint8': lambda v: np.uint8(v), 'np.int16': lambda v: np.int16(v),
+    'arange-element': lambda v: np.arange(v + 1)[v], 'array-max': lambda v: np.array([0, v]).max(),
+}
+# left out: bool (HEAD itself writes `LAGS: int = True`), float (HEAD writes `LAGS: int = 2.0`) — not integer forms that
+# HEAD handles, so the property's "lag/lead lengths" says nothing about them
+
+
+def forms_oracle(rep, info, symbols, o, forms, typed):
+    """The same lag/lead settings given as NumPy integer scalars instead of Python ints: the definition text is
+    byte-identical, it executes in the namespace that suffices for the plain-int text, and LAGS/LEADS of the class are
+    plain ints with the same value — for build_model, exec(text) and exec(CODE)."""
+    if all(o[k] is None for k in ('lags', 'leads', 'min_lags', 'min_leads')):
+        return
+    plain_kw = dict(kwargs_of(o), with_type_hints=typed)
+    plain = P.build_model_definition(symbols, **plain_kw)
+    ns_plain = namespace_for(plain, typed)
+    want = {}
+    exec(plain, dict(ns_plain), want)
+    wl, wd = want['Model'].LAGS, want['Model'].LEADS
+    for form in forms:
+        conv = INT_FORMS[form]
+        fkw = {k: (conv(v) if isinstance(v, int) and not isinstance(v, bool) else v) for k, v in plain_kw.items()}
+        finfo = info | {'int_form': form, 'with_type_hints': typed}
+        rep.dist['int-form:' + form] += 1
+        try:
+            text = P.build_model_definition(symbols, **fkw)
+            A = P.build_model(symbols, **fkw)
+        except Exception as e:  # noqa: BLE001
+            rep.violate('int-form', f'lags/leads given as {form}: building raised {pc.exc_name(e)}: {str(e)[:150]}', finfo)
+            continue
+        if text != plain:
+            diff = next((a for a, b in zip(text.splitlines(), plain.splitlines()) if a != b), '<length differs>')
+            rep.violate('int-form', f'lags/leads given as {form}: the definition text differs from the text for the equal '
+                        f'Python ints (first differing line: {diff.strip()!r})', finfo)
+        if A.CODE != plain:
+            rep.violate('int-form', f'lags/leads given as {form}: CODE differs from the text for the equal Python ints', finfo)
+        for route, make in (('build_model', lambda: A), ('exec(definition)', lambda: _exec_in(text, ns_plain)),
+                            ('exec(CODE)', lambda: _exec_in(A.CODE, ns_plain))):
+            try:
+                M = make()
+            except Exception as e:  # noqa: BLE001
+                rep.violate('int-form', f'lags/leads given as {form}: {route} in the namespace that suffices for plain ints '
+                            f'raised {pc.exc_name(e)}: {str(e)[:120]}', finfo)
+                continue
+            if type(M.LAGS) is not int or type(M.LEADS) is not int or (M.LAGS, M.LEADS) != (wl, wd):
+                rep.violate('int-form', f'lags/leads given as {form}: {route} has LAGS={M.LAGS!r} ({type(M.LAGS).__name__}), '
+                            f'LEADS={M.LEADS!r} ({type(M.LEADS).__name__}); plain ints give {wl}, {wd}', finfo)
+
+
+def _exec_in(text, ns):
+    env = dict(ns)
+    exec(text, env)
+    return env['Model']
+
+
 def carries(s):
     return s.type in (P.Type.ENDOGENOUS, P.Type.VERBATIM) and s.equation is not None and s.code is not None
 
@@ -486,6 +543,13 @@ def run_case(ctx, rep, case, batch):
                     rep.violate('variants-evaluate' + ('' if key[0] else '-untyped'),
                                 f'_evaluate differs between {key} and {ref_key} (first differing period: '
                                 f'{next((x[0] for x, y in zip(ev, ref_eval) if x != y), None)})', info)
+            # the same settings in other integer forms
+            if cname == 'default':
+                forms = rng.sample(list(INT_FORMS), 2 if ctx.tier == 'quick' else 4)
+                try:
+                    forms_oracle(rep, info, symbols, o, forms, rng.random() < 0.5)
+                except Exception as e:  # noqa: BLE001
+                    rep.violate('int-form', f'plain-int build failed in the forms oracle: {pc.exc_name(e)}', info)
             # boundary span sizes (one solvable period, none, three) against the hand-computable expectation
             if dupfree and cname == 'default':
                 which = (True, 'build_model') if rng.random() < 0.5 else (False, 'exec(CODE)')
